@@ -94,6 +94,22 @@ def run(tier, seed):
                 cases.append({"arch": arch, "stmts": [("segment", False)] + pre + sts + [("label", "after")],
                               "src": '@segment "ADDR"\n' + pre_src + line + "\nafter:\n", "note": f"{name}:{ln - k}"})
                 hist[name] = hist.get(name, 0) + 1
+    # @org itself: every value around both ends of the address space, written as a literal and as an
+    # expression (the next label must lie in 0..$10000 or the program is rejected)
+    for arch in ("6502", "z80"):
+        for v in (-0x80000000, -65536, -32, -1, 0, 1, 0xFFFE, 0xFFFF, 0x10000, 0x10001, 0x20000, 0x7FFFFFFF):
+            for form in ("lit", "expr"):
+                e = ("num", v) if form == "lit" else ("bin", "sub", ("num", v + 0x20), ("num", 0x20))
+                txt = (f"${v:x}" if v >= 0 else f"0 - ${-v:x}") if form == "lit" else f"${(v + 0x20) & 0xFFFFFFFF:x} - $20"
+                if form == "lit" and v < 0:
+                    e = ("bin", "sub", ("num", 0), ("num", -v))
+                if form == "expr" and not (0 <= v + 0x20 <= 0xFFFFFFFF):
+                    continue
+                cases.append({"arch": arch, "stmts": [("org", e), ("label", "after"), ("db", ("num", 1))],
+                              "src": f"@org {txt}\nafter:\n@db 1\n", "note": f"org:{v}:{form}"})
+                cases.append({"arch": arch, "stmts": [("org", e), ("label", "after")],
+                              "src": f"@org {txt}\nafter:\n", "note": f"org-only:{v}:{form}"})
+                hist["org"] = hist.get("org", 0) + 2
     # large @incbin files (several read blocks) ending around the top of memory
     for arch in ("6502",):
         for size in (4095, 4096, 4097, 8191, 8193, 12289):
@@ -123,8 +139,8 @@ def run(tier, seed):
         im = r["impl"]
         if im["kind"] == "OK":
             for n, v in core.parse_syms(im["syms"]).items():
-                if v.lstrip("-").isdigit() and int(v) > TOP and n in ("after", "theend"):
-                    chk.violation(f"top:{r['case']['note']}", f"label {n} = {v} lies above $10000; program:\n{r['case']['src']}",
+                if v.lstrip("-").isdigit() and not (0 <= int(v) <= TOP) and n in ("after", "theend"):
+                    chk.violation(f"top:{r['case']['note']}", f"label {n} = {v} lies outside 0..$10000; program:\n{r['case']['src']}",
                                   {"arch": r["case"]["arch"], "source": r["case"]["src"], "impl": {k: x for k, x in im.items() if k != 'msg'}})
     chk.samples += [{"source": res[k]["case"]["src"], "impl": res[k]["impl"].get("kind"), "note": res[k]["case"]["note"]} for k in (0, 3, len(res) // 2, len(res) - 1)]
     chk.oblige("correspondence: implementation = both Models on every placement at the top of memory", not chk.disagreements,
